@@ -1532,6 +1532,8 @@ func (p *GoProg) propagateNewLocals() {
 			}
 			cl := &cloner{p: p, memo: map[ast.Node]ast.Node{}}
 			e := cl.node(def).(ast.Expr)
+			// the copy sits where the use is (rules order statements by position)
+			shiftPos(e, id.Pos()-def.Pos())
 			switch e.(type) {
 			case *ast.BinaryExpr, *ast.StarExpr:
 				pe := &ast.ParenExpr{X: e, Lparen: id.Pos(), Rparen: id.End()}
@@ -1579,9 +1581,9 @@ func (p *GoProg) propagateNewLocals() {
 			blank := &ast.Ident{Name: "_", NamePos: as.Lhs[0].Pos()}
 			as.Lhs[0] = blank
 			as.Tok = token.ASSIGN
-			zero := &ast.BasicLit{Kind: token.INT, Value: "0", ValuePos: as.Rhs[0].Pos()}
-			p.Info.Types[zero] = types.TypeAndValue{Type: types.Typ[types.UntypedInt]}
-			as.Rhs[0] = zero // every use now evaluates the expression itself
+			// every use now evaluates the expression itself; the definition keeps its own evaluation (`_ = e`), which the
+			// normal forms drop unless it can panic — an index, slice, dereference or division hoisted above its guard
+			// still fails where the program fails (seeded change C05-w6m2: `last := buf[position]` above the length test)
 		}
 	}
 }
